@@ -338,7 +338,7 @@ DIM1 = list("xyzabcuvwtrs")
 DIMN = ["x0", "x1", "len", "ρ", "φ", "θ", "my dim", "X", "Y", "k_x", "k_y", "k_z"]
 UNITS = ["m", "nm", "µm", "s", "", "rad", "1/m", "Å", "m", "m"]
 VDIMS = ["a", "b", "c", "d", "e", "mx", "my", "mz", "c0", "c1", "ψ", "re_part", "v 1", "x", "y", "z", "None", ""]
-FUNITS = [None, None, "A/m", "T", "", "J/m³", "µT", "none", "NONE", " None", "None ", "A/m"]
+FUNITS = [None, None, None, "A/m", "T", "", "J/m³", "µT", "none", "NONE", " None", "None ", "A/m", "None", "T", "A/m"]
 SNAMES = ["sr1", "sr2", "bottom", "top", "default", "ü", "a b", "r0", "r1", "r2", "None", "x"]
 DTYPES = ["float64"] * 8 + ["float32", "float16", "complex128", "complex128", "complex64", "int64", "int32", "int8",
                             "uint8", "uint64", "bool"]
@@ -577,7 +577,7 @@ def generate(rng, tier):
         if rc["unit"] == "None" or not buildable(rc):
             continue
         rc["kind"] = "foreign"
-        rc["defect"] = rng.choice([None, None, None] + DEFECTS)
+        rc["defect"] = None if rng.random() < 0.4 else rng.choice(DEFECTS)
         cases.append(rc)
         k += 1
     nleg = 80 if tier == "quick" else 800
